@@ -105,6 +105,80 @@ struct Stats {
     choice_counts: BTreeMap<String, u64>,
     glyph_kinds: BTreeMap<String, u64>,
     encoder_disagreements: Vec<Value>,
+    /// size-boundary families: how many generated fonts / glyphs / directories sat on each edge
+    boundaries: BTreeMap<String, u64>,
+    /// glyph counts of the fonts decoded through the glyf transform
+    glyph_counts: BTreeSet<usize>,
+    lemma_cases: u64,
+}
+
+/// The 255UInt16 code boundaries (last one-byte value, first 255-coded, ..., first word-only).
+const U16_BOUNDS: [usize; 8] = [252, 253, 505, 506, 508, 509, 761, 762];
+
+/// Boundary bookkeeping of one encoded font (measured on the bytes the encoder produced).
+fn note_boundaries(b: &mut BTreeMap<String, u64>, counts: &mut BTreeSet<usize>, info: &enc::FontInfo) {
+    if !info.glyf_transformed {
+        return;
+    }
+    let n = info.n;
+    counts.insert(n);
+    let words = (n + 31) / 32;
+    let cls = match n % 32 {
+        0 => "32k",
+        1 => "32k+1",
+        31 => "32k-1",
+        _ => "",
+    };
+    if !cls.is_empty() && n >= 31 {
+        let explicit: Vec<usize> = (0..n).filter(|&g| info.per[g].bit).collect();
+        bump(b, &format!("bitmap.n={}", cls), 1);
+        if explicit.is_empty() {
+            bump(b, &format!("bitmap.n={}.no_explicit_bbox", cls), 1);
+        }
+        if explicit.iter().any(|&g| g / 32 == 0) {
+            bump(b, &format!("bitmap.n={}.explicit_in_first_word", cls), 1);
+        }
+        if explicit.iter().any(|&g| g / 32 == words - 1) {
+            bump(b, &format!("bitmap.n={}.explicit_in_last_word", cls), 1);
+        }
+        if explicit.iter().any(|&g| g % 32 == 31) || explicit.iter().any(|&g| g % 32 == 0 && g > 0) {
+            bump(b, &format!("bitmap.n={}.explicit_at_word_edge", cls), 1);
+        }
+        if explicit.iter().any(|&g| info.recs[g].kind == Kind::Composite) {
+            bump(b, &format!("bitmap.n={}.explicit_composite", cls), 1);
+        }
+        if explicit.iter().any(|&g| info.recs[g].kind == Kind::Simple && info.recs[g].bbox != info.recs[g].computed_bbox()) {
+            bump(b, &format!("bitmap.n={}.explicit_simple_not_tight", cls), 1);
+        }
+    }
+    if info.hmtx_flags != 0 && n >= 31 {
+        let k = if info.nhm == n { "nhm=n".to_string() } else if info.nhm == 1 { "nhm=1".to_string() } else if info.nhm + 1 == n { "nhm=n-1".to_string() } else { format!("nhm={}", info.nhm) };
+        bump(b, &format!("hmtx.n>=31.{}", k), 1);
+    }
+    for g in &info.recs {
+        let mut prev: i64 = -1;
+        for &e in &g.ends {
+            let cnt = (e as i64 - prev) as usize;
+            prev = e as i64;
+            if U16_BOUNDS.contains(&cnt) {
+                bump(b, &format!("u16.contour_points={}", cnt), 1);
+            }
+        }
+        if U16_BOUNDS.contains(&g.instr.len()) {
+            bump(b, &format!("u16.{}_instructions={}", if g.kind == Kind::Composite { "composite" } else { "simple" }, g.instr.len()), 1);
+        }
+        if g.instr.len() > 65000 {
+            bump(b, "u16.instructions>65000", 1);
+        }
+        for lim in [127usize, 128, 255, 256] {
+            if g.ends.len() == lim {
+                bump(b, &format!("contours={}", lim), 1);
+            }
+        }
+        if g.ends.len() > 256 {
+            bump(b, "contours>256", 1);
+        }
+    }
 }
 
 fn bump(m: &mut BTreeMap<String, u64>, k: &str, by: u64) {
@@ -121,12 +195,17 @@ fn replay(cases: &str, out: &str) {
         choice_counts: BTreeMap::new(),
         glyph_kinds: BTreeMap::new(),
         encoder_disagreements: vec![],
+        boundaries: BTreeMap::new(),
+        glyph_counts: BTreeSet::new(),
+        lemma_cases: 0,
     };
     let mut mism = 0u64;
     for c in read_ndjson(cases) {
         let kind = c["kind"].as_str().unwrap().to_string();
         bump(&mut st.cases, &kind, 1);
         match kind.as_str() {
+            // a design lemma that has no concrete counterpart (checked by TLC alone)
+            "lemma" => st.lemma_cases += 1,
             "b128" | "u255" => {
                 for v in c["vec"].as_array().unwrap() {
                     let b = bytes_of(&v["b"]);
@@ -174,11 +253,10 @@ fn replay(cases: &str, out: &str) {
                 let coll = ch["coll"].as_str().unwrap();
                 let afonts: Vec<synth::AbstractFont> = c["fonts"].as_array().unwrap().iter().map(synth::AbstractFont::from_json).collect();
                 let style = if choices.u16p == "word" { 1 } else { 0 };
-                let srcs: Vec<SrcFont> = afonts
-                    .iter()
-                    .enumerate()
-                    .map(|(k, f)| synth::build(f, ch["loca"].as_u64().unwrap() == 1, style, if k == 1 && coll == "other" { 1 } else { 0 }))
-                    .collect();
+                let zlen = ch["zlen"].as_u64().unwrap_or(13) as usize;
+                let src_long = ch["loca"].as_u64().unwrap() == 1;
+                let srcs: Vec<SrcFont> = afonts.iter().enumerate().map(|(k, f)| synth::build(f, src_long, style, if k == 1 && coll == "other" { 1 } else { 0 }, zlen)).collect();
+                bump(&mut st.boundaries, &format!("dir.table_length={}", zlen), 1);
                 let mut rng = StdRng::seed_from_u64(0);
                 let e = enc::encode_woff2(&srcs, &choices, &mut rng);
                 for (k, v) in [("glyf", ch["glyf"].to_string()), ("hmtx", ch["hmtx"].to_string()), ("trip", choices.trip.clone()), ("u16", choices.u16p.clone()), ("bbox", choices.bbox.clone()),
@@ -196,6 +274,9 @@ fn replay(cases: &str, out: &str) {
                     }
                 }
                 // the harness encoder must agree with the specification's encoder, byte for byte
+                for info in e.fonts.iter() {
+                    note_boundaries(&mut st.boundaries, &mut st.glyph_counts, info);
+                }
                 for (k, info) in e.fonts.iter().enumerate() {
                     let xg = bytes_of(&c["xglyf"][k]);
                     let xh = bytes_of(&c["xhmtx"][k]);
@@ -252,6 +333,22 @@ fn replay(cases: &str, out: &str) {
                             if !v.loca_ok {
                                 diff.push(format!("{}:loca-inconsistent", k));
                             }
+                            if info.glyf_transformed {
+                                // which side of the 16-bit loca limit the rebuilt glyf fell on (observation, for the counters only)
+                                let glen = tables.get(&tag_u32("glyf")).map(|t| t.len()).unwrap_or(0);
+                                let dec_long = tables.get(&tag_u32("head")).and_then(|h| fontgen::be16(h, 50)).unwrap_or(0) != 0;
+                                let key = format!("loca.source_{}.rebuilt_{}", if src_long { "long" } else { "short" }, if dec_long { "long" } else { "short" });
+                                bump(&mut st.boundaries, &key, 1);
+                                if glen == 131070 {
+                                    bump(&mut st.boundaries, "loca.rebuilt_glyf=131070", 1);
+                                }
+                                if glen > 131070 {
+                                    bump(&mut st.boundaries, "loca.rebuilt_glyf>131070", 1);
+                                }
+                                if glen > 131000 && glen < 131070 {
+                                    bump(&mut st.boundaries, "loca.rebuilt_glyf_just_below_131070", 1);
+                                }
+                            }
                             fonts_obs.push(json!({
                                 "glyphs": v.glyphs.iter().map(|g| match g { Ok(g) => g.to_json(), Err(e) => json!({"kind": "unreadable", "err": e}) }).collect::<Vec<_>>(),
                                 "nhm": v.nhm,
@@ -286,6 +383,17 @@ fn replay(cases: &str, out: &str) {
                     Err(x) => json!({"err": x}),
                 };
                 bump(&mut st.vectors, "dir_entries", n as u64);
+                if let Some(fs) = c["exp"]["fonts"].as_array() {
+                    if U16_BOUNDS.contains(&fs.len()) {
+                        bump(&mut st.boundaries, &format!("u16.collection_fonts={}", fs.len()), 1);
+                    }
+                    for f in fs {
+                        let l = f.as_array().map(|a| a.len()).unwrap_or(0);
+                        if U16_BOUNDS.contains(&l) {
+                            bump(&mut st.boundaries, &format!("u16.collection_font_tables={}", l), 1);
+                        }
+                    }
+                }
                 if got != c["exp"] {
                     mism += 1;
                     w.write(&json!({"kind": "dir", "id": c["id"], "sub": {"dir": dir, "coll": coll}, "want": c["exp"], "got": got, "case": c}));
@@ -299,7 +407,8 @@ fn replay(cases: &str, out: &str) {
         "{}",
         json!({"cases": st.cases, "vectors": st.vectors, "mismatches": mism, "triplet_entries_exercised": st.trip_entries.len(),
             "u255_first_bytes_exercised": st.u255_first.len(), "choices": st.choice_counts, "glyph_kinds": st.glyph_kinds,
-            "encoder_disagreements": st.encoder_disagreements})
+            "encoder_disagreements": st.encoder_disagreements, "boundaries": st.boundaries, "lemma_cases": st.lemma_cases,
+            "glyph_counts_transformed": st.glyph_counts.iter().collect::<Vec<_>>()})
     );
 }
 
@@ -719,7 +828,7 @@ fn record(seed: u64, tier: &str, out: &str) {
 fn probe() {
     let tri = |d: i16| GlyphRec { kind: Kind::Simple, ends: vec![2], pts: vec![(10 + d, 0, true), (300, 40, true), (150, 400, true)], instr: vec![], bbox: [10 + d, 0, 300, 400], comps: vec![] };
     let f = synth::AbstractFont { glyphs: vec![GlyphRec::empty(), tri(0), tri(5)], nhm: 1, adv: vec![500, 500, 500], lsb: vec![0, 10, 15] };
-    let src = synth::build(&f, false, 0, 0);
+    let src = synth::build(&f, false, 0, 0, 13);
     let tables: Vec<DirTable> = src
         .tables
         .iter()
